@@ -373,19 +373,19 @@ def translate(path=None) -> str:
         if TRANSACTION + "['name']" in text and "name" not in fields_seen:
             raise TranslatorError(f"should_sign: {where} reads transaction['name'] before its presence is checked")
 
-    def check_same_metadata():
-        """`_same_metadata(a, b)`: equality of the canonical JSON texts, total (anything unserialisable matches nothing)"""
-        f = fns.get("_same_metadata")
+    def check_same_metadata(hname="_same_metadata"):
+        """`<helper>(a, b)`: equality of the canonical JSON texts, total (anything unserialisable matches nothing)"""
+        f = fns.get(hname)
         if f is None:
-            raise TranslatorError("should_sign calls self._same_metadata, which is not defined in the class")
+            raise TranslatorError(f"should_sign calls self.{hname}, which is not defined in the class")
         deco = [ast.unparse(d) for d in f.decorator_list]
         params = [a.arg for a in f.args.args]
         if deco == ["staticmethod"]:
             params = ["self"] + params
         elif deco:
-            raise TranslatorError(f"_same_metadata has unexpected decorators {deco}")
+            raise TranslatorError(f"{hname} has unexpected decorators {deco}")
         if len(params) != 3:
-            raise TranslatorError(f"_same_metadata takes {params}")
+            raise TranslatorError(f"{hname} takes {params}")
         fb = copy.deepcopy(f)
         if deco:
             fb.args.args.insert(0, ast.arg(arg="self"))
@@ -395,7 +395,7 @@ def translate(path=None) -> str:
         alt_ = want_.replace("json.dumps(a, sort_keys=True) == json.dumps(b, sort_keys=True)",
                              "json.dumps(b, sort_keys=True) == json.dumps(a, sort_keys=True)")
         if txt_ not in (want_, alt_, want_.replace("(TypeError, ValueError)", "(ValueError, TypeError)")):
-            raise TranslatorError("_same_metadata has an unexpected shape:\n" + txt_)
+            raise TranslatorError(hname + " has an unexpected shape:\n" + txt_)
 
     def one_guard(c_node):
         c = ast.unparse(c_node)
@@ -432,22 +432,36 @@ def translate(path=None) -> str:
                     slot(i, "time", "age")
                     guards.append(f".fresh {n} {strict}")
                     return
+        for hname in ("_same_json", "_same_metadata"):
+            for tmpl in ("not self." + hname + "(" + TRANSACTION + "['name'], " + K + "[{i}])",
+                         "not self." + hname + "(" + K + "[{i}], " + TRANSACTION + "['name'])",
+                         "json.dumps(" + TRANSACTION + "['name'], sort_keys=True) != json.dumps(" + K + "[{i}], sort_keys=True)"):
+                i = find_slot(c, tmpl)
+                if i is not None:
+                    slot(i, "name", "name")
+                    if "self." in tmpl:
+                        check_same_metadata(hname)
+                    guards.append("nameMatches")
+                    return
         i = find_slot(c, TRANSACTION + "['name'] != " + K + "[{i}]")
         if i is not None:
             slot(i, "name", "name")
-            guards.append("nameMatches")
-            return
+            raise TranslatorError("should_sign: the name guard compares with Python `!=`, under which True == 1 == 1.0: "
+                                  "a credential named 1 passes a registration for the name True")
         if isinstance(c_node, ast.BoolOp) and isinstance(c_node.op, ast.And) and len(c_node.values) == 2:
             a_, b_ = (ast.unparse(v) for v in c_node.values)
             i1 = find_slot(a_, K + "[{i}] is not None")
             comp = "{{k: v for k, v in " + TRANSACTION + ".items() if k not in {lst}}}"
             strict_t = "json.dumps(" + comp + ", sort_keys=True) != json.dumps(" + K + "[{i}], sort_keys=True)"
-            helper_t = "not self._same_metadata(" + comp + ", " + K + "[{i}])"
-            helper_r = "not self._same_metadata(" + K + "[{i}], " + comp + ")"
+            helper_t = "not self.HELPER(" + comp + ", " + K + "[{i}])"
+            helper_r = "not self.HELPER(" + K + "[{i}], " + comp + ")"
             loose_t = comp + " != " + K + "[{i}]"
             found = None
             cand = re.sub(r"\bv\d+\b", "V", b_)
-            for kind, tmpl in (("strict", strict_t), ("helper", helper_t), ("helper", helper_r), ("loose", loose_t)):
+            variants = [("strict", strict_t), ("loose", loose_t)]
+            for hn in ("_same_json", "_same_metadata"):
+                variants += [("helper:" + hn, helper_t.replace("HELPER", hn)), ("helper:" + hn, helper_r.replace("HELPER", hn))]
+            for kind, tmpl in variants:
                 for lst in ("['name', 'date', 'schema']", "('name', 'date', 'schema')", "{'name', 'date', 'schema'}"):
                     for i in range(8):
                         if cand == re.sub(r"\b[kv]\b", "V", _norm_expr(tmpl.format(lst=lst, i=i))):
@@ -455,8 +469,8 @@ def translate(path=None) -> str:
             if i1 is not None and found is not None:
                 slot(i1, "md", "fixed-metadata")
                 slot(found[1], "md", "fixed-metadata")
-                if found[0] == "helper":
-                    check_same_metadata()
+                if found[0].startswith("helper:"):
+                    check_same_metadata(found[0].split(":")[1])
                 if found[0] == "loose":
                     raise TranslatorError("should_sign: the fixed-metadata guard compares with Python `!=`, under which "
                                           "True == 1 == 1.0: metadata {\"a\": true} passes a registration fixing {\"a\": 1}")
